@@ -146,6 +146,10 @@ func (m *ErrorMessage) UnmarshalBinary(data []byte) error {
 		return fmt.Errorf("data too short for error message")
 	}
 
+	if uint64(len(data)-bytesRead) != length {
+		return fmt.Errorf("trailing bytes after error message")
+	}
+
 	m.Error = string(data[bytesRead : bytesRead+int(length)])
 
 	return nil
@@ -282,6 +286,10 @@ func (m *PeerInfo) UnmarshalBinary(data []byte) error {
 		return err
 	}
 
+	if buffer.Len() != 0 {
+		return fmt.Errorf("%d trailing bytes after peer info", buffer.Len())
+	}
+
 	m.AppName = string(nameBuffer)
 	m.AppVersion = appVersion
 	m.JamVersion = jamVersion
@@ -291,14 +299,27 @@ func (m *PeerInfo) UnmarshalBinary(data []byte) error {
 	return nil
 }
 
+// decodeExact decodes a message payload into v. The payload is exactly the
+// encoding of v: bytes left over after the value are an error.
+func decodeExact(data []byte, v any) error {
+	decoder := types.NewDecoder()
+	consumed, err := decoder.DecodeWithConsumed(data, v)
+	if err != nil {
+		return err
+	}
+	if consumed != len(data) {
+		return fmt.Errorf("%d trailing bytes after message payload", len(data)-consumed)
+	}
+	return nil
+}
+
 func (m *ImportBlock) MarshalBinary() ([]byte, error) {
 	encoder := types.NewEncoder()
 	return encoder.Encode((*types.Block)(m))
 }
 
 func (m *ImportBlock) UnmarshalBinary(data []byte) error {
-	decoder := types.NewDecoder()
-	return decoder.Decode(data, (*types.Block)(m))
+	return decodeExact(data, (*types.Block)(m))
 }
 
 func (m *SetState) Encode(e *types.Encoder) error {
@@ -339,8 +360,7 @@ func (m *SetState) MarshalBinary() ([]byte, error) {
 }
 
 func (m *SetState) UnmarshalBinary(data []byte) error {
-	decoder := types.NewDecoder()
-	return decoder.Decode(data, m)
+	return decodeExact(data, m)
 }
 
 func (m *GetState) MarshalBinary() ([]byte, error) {
@@ -349,8 +369,7 @@ func (m *GetState) MarshalBinary() ([]byte, error) {
 }
 
 func (m *GetState) UnmarshalBinary(data []byte) error {
-	decoder := types.NewDecoder()
-	return decoder.Decode(data, (*types.HeaderHash)(m))
+	return decodeExact(data, (*types.HeaderHash)(m))
 }
 
 func (m *State) MarshalBinary() ([]byte, error) {
@@ -359,8 +378,7 @@ func (m *State) MarshalBinary() ([]byte, error) {
 }
 
 func (m *State) UnmarshalBinary(data []byte) error {
-	decoder := types.NewDecoder()
-	return decoder.Decode(data, (*types.StateKeyVals)(m))
+	return decodeExact(data, (*types.StateKeyVals)(m))
 }
 
 func (m *StateRoot) MarshalBinary() ([]byte, error) {
@@ -369,8 +387,7 @@ func (m *StateRoot) MarshalBinary() ([]byte, error) {
 }
 
 func (m *StateRoot) UnmarshalBinary(data []byte) error {
-	decoder := types.NewDecoder()
-	return decoder.Decode(data, (*types.StateRoot)(m))
+	return decodeExact(data, (*types.StateRoot)(m))
 }
 
 func (m *Message) ReadFrom(reader io.Reader) (int64, error) {
